@@ -263,3 +263,14 @@ Example media_split_ex :
      = Some [IStmt KRuleset rule_str; IStmt KRuleset junk_fn; IStmt KRuleset rule_b]
   /\ bclass_of (T "STRING" """a{b;}""") = BAtom /\ bclass_of (T "URI" "url(x;})") = BAtom.
 Proof. split; [exact mq_ex_prebrace|]. split; [exact rule_str_stmt|]. exact media_split_example. Qed.
+
+(* the delimiters the handlers of the CURRENT source use (read off the generated tables): statements end at a
+   top-level ';' or the '}' of a top-level block, declarations at a top-level ';' only, no token type ends either,
+   and every handler passes its first token as start token *)
+Theorem delimiters_spec :
+  forallb (fun k => eqs (ends (kmd k)) (s ";}") && match endtypes (kmd k) with [] => true | _ => false end
+                    && snd (kmode k)) (KDeclAt :: sheet_kinds) = true
+  /\ forallb (fun k => eqs (ends (kmd k)) (s ";") && match endtypes (kmd k) with [] => true | _ => false end
+                       && snd (kmode k)) [KDeclIdent; KDeclUnexpected] = true.
+Proof. exact delimiters_spec_lemma. Qed.
+Print Assumptions delimiters_spec.
